@@ -183,7 +183,8 @@ fn oracle(s: &ProgScene<X>, t: &Trace) -> Vec<Violation> {
             }
         }
     } else {
-        v("scene-terminates", format!("C03/{kind}/actor-alive-at-quiescence"), "harness scene error: the actor did not terminate".into());
+        // every program of the family ends with all its handles dropped: the end must come
+        v("graceful-end", format!("C03/{kind}/no-end-although-every-handle-is-gone"), "every client has finished and dropped its handles, but the actor never reached stopped()".into());
     }
     out
 }
@@ -242,6 +243,12 @@ fn make_case_slow(progs: &[Vec<A>], spawn: SpawnCfg, attach: Attach, start_err: 
         1 => role.started_actions.push(Action::Stop),
         // ... and once more from stopped(), where there is nothing left to stop
         2 => role.stopped_actions.push(Action::Stop),
+        // the actor subscribes to a broker topic and publishes on it (to itself) in started():
+        // the broker has delivered to it once - and still lets it end when its handles are gone
+        3 => {
+            role.started_actions.push(Action::Subscribe { topic: 1 });
+            role.started_actions.push(Action::Publish { topic: 1, id: 77 });
+        }
         _ => {}
     }
     role.started_sleep = slow_start;
@@ -251,6 +258,7 @@ fn make_case_slow(progs: &[Vec<A>], spawn: SpawnCfg, attach: Attach, start_err: 
     let hook_tag = match HOOK_ACTS.with(|h| h.get()) {
         1 => " [ctx.stop() in started()]",
         2 => " [ctx.stop() in stopped()]",
+        3 => " [subscribed and published to in started()]",
         _ => "",
     };
     let desc = format!(
@@ -399,8 +407,8 @@ fn cases(tier: Tier) -> Vec<Case> {
     let plain = |d: &str| d.contains("lifecycle \"plain\"") && d.contains("timeout=None");
     let mut v = base_cases(tier);
     // context operations from inside the hooks (every second case; thorough: all)
-    for mode in [1u8, 2] {
-        let step = if tier == Tier::Thorough { 1 } else { 2 };
+    for mode in [1u8, 2, 3] {
+        let step = if tier == Tier::Thorough { 1 } else if mode == 3 { 8 } else { 2 };
         v.extend(with_hook_acts(mode, || base_cases(tier)).into_iter().enumerate().filter(|(i, _)| i % step == 0).map(|(_, c)| c));
     }
     v.extend(crate::check::with_ambient(base_cases(tier).into_iter().filter(|c| plain(&c.desc)).collect(), crate::scenes::Ambient { generous_timeout: true, roomy: true, ..Default::default() }));
